@@ -9,6 +9,13 @@
      the trace hook: traced components = model(traced reads); PS/HP of every phased call in the output VCF =
      1 + smallest position connected (by the traced reads, plus the master block of positions homozygous in a
      family member, computed from the INPUT VCF) to it; two phased variants share a set iff connected.
+(iii) the glue between read selection and the writer (Model/C03Pipe.lean): in-process `merge_readsets`, `ReadList.write`,
+     `find_largest_component`; whole runs of harness/gen/c03_pipe.py (several chromosomes with different data, several
+     families, multi-sample runs without --ped, decorated VCFs, --chromosome/--sample, --output-read-list, ...): per trace
+     record the read set handed to the solver = union of the members' SELECTED reads, accessible positions, family stage
+     (`c03.family`), read-list rows; per run the composed model `c03.pipeline` (selected reads -> family stage -> C04 writer ->
+     C09 decoders) = decoded phase statement of every call of the output VCF; oracle (BFS over the selected reads) on the
+     output VCF and the read list.
 """
 import json, os, shutil
 
@@ -21,11 +28,14 @@ MANIFEST = dict(
          "model: component equality <-> connectivity by reads (+ master block), component = leftmost connected "
          "position, PS = that position + 1, master block merges all touched components; the model is tied to the "
          "working tree by running the real functions in-process and `whatshap phase` with the trace hook, and an "
-         "independent BFS oracle is evaluated on the implementation's output (trace and output VCF)",
+         "independent BFS oracle is evaluated on the implementation's output (trace and output VCF); deepening: a model of "
+         "phase.py between read selection and the writer (merge_readsets, accessible positions, per-family / per-chromosome "
+         "dicts, read list) composed with the C04 writer and C09 decoder models, with end-to-end theorems from the selected "
+         "reads to the decoded phase set of every written call, tied to whole CLI runs (`c03.pipeline`)",
     design_ref="DESIGN.md §5 C03",
     note="trusted: Lean kernel, axioms ⊆ {propext, Classical.choice, Quot.sound}; hand-written model (differential "
-         "correspondence: quick ~3 000 in-process structures + ~16 CLI runs); allele detection and read selection are "
-         "taken as given (the reads 'used for phasing' are the traced selected reads)",
+         "correspondence: quick ~4 200 in-process cases + ~48 CLI runs); allele detection, read selection and the solver's "
+         "super-reads are taken as given (trace hook); --merge-reads is outside (F85)",
     technique="Lean 4 proof (union-find invariant: root = least element of the class, kernel of root = equivalence "
               "closure of the merged pairs) + differential correspondence + BFS oracle on CLI output",
 )
